@@ -280,3 +280,38 @@ Proof.
   - now apply wf_evaluate.
   - pose proof (depth_evaluate _ _ Hwf). cbn [depth] in Hd. lia.
 Qed.
+
+(* ------------------------------------------------------------------ *)
+(* a symbol that is free at one level and bound in a nested sum        *)
+(* ------------------------------------------------------------------ *)
+Definition free_here_bound_deeper : expr :=
+  PSum (Mul [Sym "j"; PSum (Add [Mul [Sym "x"; Sym "i"]; Sym "j"]) [("j", [Num 1 1; Num 2 1])]])
+       [("i", [Num 3 1; Num 4 1])].
+
+Lemma free_here_bound_deeper_ok :
+  wf free_here_bound_deeper /\
+  subs1 "j" (Num 7 1) free_here_bound_deeper =
+    PSum (Mul [Num 7 1; PSum (Add [Mul [Sym "x"; Sym "i"]; Sym "j"]) [("j", [Num 1 1; Num 2 1])]])
+         [("i", [Num 3 1; Num 4 1])] /\
+  forall (A : alg) (r : string -> V A),
+    den r (doit (subs1 "j" (Num 7 1) free_here_bound_deeper)) =
+    den (upd r "j" (vnum A 7 1)) free_here_bound_deeper.
+Proof.
+  split; [reflexivity|]. split; [reflexivity|]. intros A r.
+  destruct (subs_doit_commute A r "j" (Num 7 1) free_here_bound_deeper) as [E1 E2];
+    [reflexivity|reflexivity|intros s []|].
+  rewrite E1. exact E2.
+Qed.
+
+(* depth 3: the outer index is used at depth 2 and re-bound at depth 3 *)
+Definition depth3_rebound : expr :=
+  PSum (PSum (Mul [Add [Mul [Sym "i"; Sym "j"]; Sym "x"];
+                   PSum (Mul [Sym "i"; Sym "y"]) [("i", [Num 1 1; Num 2 1])]])
+             [("j", [Num 1 1; Num 1 2])])
+       [("i", [Num 10 1; Num 20 1])].
+
+Lemma depth3_rebound_ok :
+  wf depth3_rebound /\ psum_freeb (doit depth3_rebound) = true /\
+  mem "i" (free_symbols (doit depth3_rebound)) = false /\
+  mem "j" (free_symbols (doit depth3_rebound)) = false.
+Proof. repeat split; vm_compute; reflexivity. Qed.
